@@ -295,11 +295,13 @@ structure DState where
 
 instance : Inhabited Tab := ⟨{}⟩
 
-def basesOf (o : Obs) : List Nat :=
-  let bs := o.states.map (·.base) ++ o.sems.map (·.base) ++
+def rawBases (o : Obs) : List Int :=
+  o.states.map (·.base) ++ o.sems.map (·.base) ++
     (o.cmds.filter fun (_, _, k) => k ≤ 2).map (fun (_, b, _) => b) ++
     o.cores.flatMap (fun c => c.rlocks ++ c.locks ++ c.l1.map (·.base)) ++ o.next.map (·.1)
-  (bs.filter (fun b => decide (0 ≤ b))).map Int.toNat
+
+def basesOf (o : Obs) : List Nat :=
+  ((rawBases o).filter (fun b => decide (0 ≤ b))).map Int.toNat
 
 def handleSnapshot (d : DState) (secs : List String) : DState × String :=
   let o := parseObs secs
@@ -316,8 +318,13 @@ def handleSnapshot (d : DState) (secs : List String) : DState × String :=
       { t with known := b :: t.known
                mem := t.mem.setIfInBounds i (((o.next.find? fun p => p.1 == Int.ofNat b).map (·.2)).getD "") }
     | none => t) t
-  if fresh.any (fun b => (t.slot b).isNone) then
+  if fresh.any (fun b => (t.slot b).isNone) || (rawBases o).any (fun b => decide (b < 0)) then
     ({ d with refOn := false }, verdict ++ " ref=skip:wild-address")
+  else if o.cmds.any (fun (c, b, k) => k ≤ 2 && o.stateOf c b.toNat == 0) then
+    -- MVP-8 only: `evictL1ExtraCacheLine` sends an evict command for a victim whose state is Invalid
+    -- (MVP-7.x returns nil, as the model does); such a victim exists only in the aftermath of a flush
+    -- in the fill window, and the command makes coSnoop panic.  Outside the model.
+    ({ d with refOn := false }, verdict ++ " ref=skip:command-on-invalid-line")
   else
   let accept (p : State String × List Nat) : DState × String :=
     let (σ, fl) := p
@@ -360,7 +367,18 @@ def handle (d : DState) (line : String) : DState × String :=
   | ["P", _, _] =>
     let o := parseObs (secs.drop 1)
     let s := o.snapshot d.lineSize
-    ({ d with refOn := false }, if s.countersNonneg then "pm ok" else "pm viol counters_nonneg")
+    if s.countersNonneg then ({ d with refOn := false }, "pm ok") else
+    -- cause, from the replayed model state: every negative counter is read = -1 with write = 1 on a line
+    -- on which some core's request in progress is a read of a line it held Modified (mode rdHitM: the
+    -- write lock recorded in the read-lock table, released with RUnlock by flush)
+    let negs := o.sems.filter fun m => decide (m.read < 0) || decide (m.write < 0)
+    let explained := d.refOn && negs.all fun m =>
+      m.read == -1 && m.write == 1 &&
+      (List.range d.tab.n).any fun c =>
+        match d.tab.req.getD c none with
+        | some r => r.mode == .rdHitM && Int.ofNat r.line == m.base
+        | none => false
+    ({ d with refOn := false }, "pm viol counters_nonneg" ++ (if explained then " ref=pm cause=flush-rdHitM" else ""))
   | "E" :: _ => (d, s!"end busyflush={d.busyFlush}")
   | "X" :: _ => (d, "skip")
   | "T" :: _ => (d, "total")
